@@ -14,8 +14,11 @@
 
     classenv = L<n> <class>…   (children first)
     class    = L7 <id:S> <module:S> <name:S> L<n> <base id:S>… <own slots: L<n> S… | N> <kind> <class attrs: M…>
+             | L8 … the same … <exception class raised by `entry == instance`:S>      (hostile `__eq__`)
     kind     = L2 Sbean M<n> <stored name:S> <value>… | L6 Sserial <method:S> <byDict:T|F> L<n> S… L<n> S… M<n> <base attr:S> <value>…
              | L2 Senum M<n> <member name:S> <value>… | L1 Sdecimal | L2 Sraising <exception class:S>
+
+    cfgcopy <cfg>      (see `cfgcopyC`)
 
   Handler ids understood by the driver (the theorems hold for every interpretation; the harness registers
   Python functions with the same behaviour): 0 ↦ "H0"; 1 ↦ [type name, serialize_method, ignore_attribute,
@@ -25,6 +28,7 @@
 import JRV.Driver.Codec
 import JRV.Model.JsonClass
 import JRV.Model.JsonClassGate
+import JRV.Model.ConfigCopy
 
 namespace JRV.Driver
 open JRV JRV.Codec JRV.JsonClass
@@ -61,6 +65,10 @@ def classDef? : PyVal → Option (String × ClassDef)
     let kind ← kind? kind
     let cattrs ← strFields? cattrs
     pure (cid, { module := m, name := n, bases := bases, ownSlots := slots, kind := kind, classAttrs := cattrs })
+  | .list [.str cid, .str m, .str n, .list bases, slots, kind, .dict cattrs, .str exc] => do
+    -- 8th element: the exception class a comparison with an instance raises (hostile `__eq__`)
+    let (_, d) ← classDef? (.list [.str cid, .str m, .str n, .list bases, slots, kind, .dict cattrs])
+    pure (cid, { d with eqRaises := some exc })
   | _ => none
 
 def classEnv? : List PyVal → Option ClassEnv
@@ -147,8 +155,30 @@ def rpcloadC (toks : List String) : String :=
     | _, _, _ => "bad-op"
   | _ => "bad-op"
 
+def showHandlers (hs : List (String × Option Nat)) : PyVal :=
+  .list (hs.map fun (t, h) => .list [.str t, match h with | some i => .int i | Option.none => .none])
+
+def showCfg (c : ConfigCopy.Cfg) : PyVal :=
+  .list [c.version, c.contentType, c.userAgent, c.useJsonclass, c.serializeMethod, c.ignoreAttribute,
+         .list (c.classes.map fun (a, b) => .list [.str a, .str b]), showHandlers c.handlers]
+
+/-- `cfgcopy <cfg>`, cfg = L8 <version> <content_type> <user_agent> <use_jsonclass> <serialize_method>
+    <ignore_attribute> <classes: L (L2 S S)…> <handlers: L (L2 S I|N)…>: the attributes of a `Config` object as a
+    program left them.  Output: `<attributes of cfg.copy()> | <attributes of the 1.0-compatibility configuration>`,
+    both in the same L8 form (the default user agent is the string `ConfigCopy.defaultUserAgent`). -/
+def cfgcopyC (toks : List String) : String :=
+  match readVals 1 toks with
+  | some ([.list [ver, ct, ua, uj, sm, ia, .list cls, .list hs]], []) =>
+    match pairs? cls, handlers? hs with
+    | some cls, some hs =>
+      let c : ConfigCopy.Cfg := { version := ver, useJsonclass := uj, contentType := ct, userAgent := ua, classes := cls,
+                                  serializeMethod := sm, ignoreAttribute := ia, handlers := hs }
+      showVal (showCfg (ConfigCopy.copy c)) ++ " | " ++ showVal (showCfg (ConfigCopy.compat c))
+    | _, _ => "bad-op"
+  | _ => "bad-op"
+
 def jsonClassComponents : List (String × (List String → String)) := [
-  ("jcdump", jcdumpC), ("jcload", jcloadC), ("rpcload", rpcloadC)
+  ("jcdump", jcdumpC), ("jcload", jcloadC), ("rpcload", rpcloadC), ("cfgcopy", cfgcopyC)
 ]
 
 end JRV.Driver
